@@ -74,6 +74,13 @@ func (fx *FuncVC) callValue(fr *frame, fv Val, args []Val, pos token.Pos, instr 
 	}
 	isClosure := fn.Parent() != nil
 	if !isClosure && (spec == nil || !spec.Inline) {
+		if spec == nil && smallLoopFree(fn) {
+			// a small accessor-like function of the repository without a contract (no loop, no call of
+			// itself, a handful of blocks): executed in place, exactly - so that a refactoring which
+			// routes a proved function through such a helper does not push it out of the subset
+			fx.note(fmt.Sprintf("%s has no contract and is executed in place (small, loop-free)", name))
+			return fx.inlineCall(fr, fn, nil, f.Bind, args, pos)
+		}
 		panic(unsupported("call of %s: callee has no contract (add a contract or mark it inline)", name))
 	}
 	return fx.inlineCall(fr, fn, spec, f.Bind, args, pos)
